@@ -19,6 +19,26 @@ from .instrument import Env, Fault
 from .sched import Deadlock, ListPolicy, Policy, RandomPolicy, Scheduler
 
 
+# abstract pointer-content class -> (class the specification sees, concrete bytes)
+DAMAGE_BYTES: Dict[str, Tuple[str, Optional[bytes]]] = {
+    "missing": ("missing", None),
+    "empty": ("garbage", b""),
+    "whitespace": ("garbage", b" \n\t\r\n"),
+    "nonutf8": ("garbage", b"\xff\xfev3.metadata.json"),
+    "text": ("garbage", b"latest"),
+    "bom": ("garbage", b"\xef\xbb\xbfv1-0a1b2c3d.metadata.json"),
+    "nul": ("garbage", b"v1-0a1b2c3d.metadata.json\x00"),
+    "uppercasehex": ("garbage", b"v1-0A1B2C3D.metadata.json"),
+    "sevenhex": ("garbage", b"v1-0a1b2c3.metadata.json"),
+    "negative": ("garbage", b"-3"),
+    "dangling": ("name", b"v77-0a1b2c3d.metadata.json"),
+    "dangling_crlf": ("name", b"v77-0a1b2c3d.metadata.json\r\n"),
+    "legacy_number": ("name", b"2"),
+    "legacy_number_big": ("name", b"00000000000000000000000000000000000000000000000999"),
+    "legacy_name": ("name", b"v2.metadata.json"),
+}
+
+
 @dataclass
 class ActorSpec:
     name: str
@@ -39,7 +59,7 @@ class Scenario:
     fix_stamp: bool = True
     fix_etag: bool = True
     init_table: str = "healthy"
-    fix_orphan: bool = False
+    fix_orphan: bool = True
     fix_gc: bool = True
     fix_gcfail: bool = True
     fix_interrupt: bool = True
@@ -408,6 +428,11 @@ class Execution:
         s.env_hooks["tick"] = self._tick
         s.env_hooks["heartbeat"] = self._heartbeat
         s.env_hooks["lapse"] = self._lapse
+        for a_ in self.scn.actors:
+            s.env_hooks["kill_" + a_.name] = (lambda n_=a_.name: instrument.kill_actor(self.env, n_))
+        for kind in DAMAGE_BYTES:
+            s.env_hooks["damage_" + kind] = (lambda k_=kind: self._damage(k_))
+        s.env_hooks["damage_stale"] = lambda: self._damage("stale")
         for a in self.scn.actors:
             s.spawn(a.name, self._actor_body(a), role=a.role, handle=a.handle or a.name)
         err = None
@@ -433,6 +458,32 @@ class Execution:
                 lp_._renew_once()
                 if who is not None:
                     self.env.sched.emit({"k": "Heartbeat", "a": "env", "who": who, "ok": bool(lp_.is_locked)})
+
+    def _damage(self, kind: str) -> None:
+        """Overwrite / remove the pointer file from outside the library (one concretisation of an abstract class)."""
+        nm = {"v": -1, "u": 0}
+        if kind == "stale":
+            st = project.read_state(self.reader())
+            cur = project.current_meta_name(st)
+            older = sorted((n for n in st["metas"] if n != cur and n in self.env.ids.meta and self.env.ids.meta[n]["u"] in self.committed_us),
+                           key=lambda n: int(project.META_RE.match(n).group(1)))
+            if not older:
+                return
+            self.write_hint(older[-1].encode())
+            cls, nm = "name", self.env.ids.name(older[-1])
+        else:
+            cls, content = DAMAGE_BYTES[kind]
+            self.write_hint(content)
+            if cls == "name":
+                text = content.decode("utf-8", "replace").strip()
+                fn = f"v{text}.metadata.json" if text.isdigit() else text
+                nm = self.env.ids.name(fn)
+        self.env.sched.emit({"k": "Damage", "a": "env", "cls": cls, "name": nm, "kind": kind})
+
+    @property
+    def committed_us(self) -> set:
+        us = {e["name"]["u"] for e in self.env.sched.trace if e["k"] == "FlipHint" and e.get("ok")}
+        return us | {m["u"] for m in self.env.ids.meta.values() if 900 <= m["u"] < 920}
 
     def _lapse(self) -> None:
         self.env.clock.advance(61_000)
@@ -540,7 +591,7 @@ def scn_constants(scn: Scenario) -> Dict[str, Any]:
     return {"Actors": R("<- ScnActors"), "Role": R("<- ScnRole"), "Idx": R("<- ScnIdx"), "Handle": R("<- ScnHandle"),
             "Prog": R("<- ScnProg"), "Backend": scn.backend, "LockKind": scn.lock_kind, "ClockMode": scn.clock_mode,
             "MaxClock": 1000000, "MaxAttempts": scn.max_attempts, "InitSnaps": scn.init_snaps, "InitTable": scn.init_table, "FixOrphanMeta": scn.fix_orphan,
-            "FixStamp": scn.fix_stamp, "FixEtag": scn.fix_etag, "FixGCOrder": scn.fix_gc, "FixGCFail": scn.fix_gcfail, "FixInterrupt": scn.fix_interrupt, "FaultKinds": set(), "FaultBudget": 0, "Grace": scn.grace, "OldFiles": False, "Lease": 60000, "MarkerTimeout": 86400000}
+            "FixStamp": scn.fix_stamp, "FixEtag": scn.fix_etag, "FixGCOrder": scn.fix_gc, "FixGCFail": scn.fix_gcfail, "FixInterrupt": scn.fix_interrupt, "FaultKinds": set(), "DamageKinds": set(), "CrashOK": False, "FaultBudget": 0, "Grace": scn.grace, "OldFiles": False, "Lease": 60000, "MarkerTimeout": 86400000}
 
 
 L1_INVARIANTS = ["TypeOK", "Serializable", "LinearChain", "AckedOnce", "NoDoubleCommit", "ReachablePresent",
@@ -655,6 +706,8 @@ def _mk_policy_list(payload: List[Any]) -> ListPolicy:
             sched.append(("fault", d[1], Fault(when=d[2], kind=d[3])))
         elif isinstance(d, (list, tuple)) and len(d) == 2 and isinstance(d[1], int) and isinstance(d[0], str) and d[0] not in ("env", "crash"):
             sched += [d[0]] * d[1]
+        elif isinstance(d, (list, tuple)) and len(d) == 3 and d[0] == "until":
+            sched.append(("until", d[1], d[2]))
         elif isinstance(d, list):
             sched.append(tuple(d))
         else:
